@@ -308,7 +308,9 @@ def _selftest_one(job):
         env = dict(os.environ, VERIF_REPO=scratch, VX_NO_SMOKE="1", VX_BUILD_SUFFIX="_st_" + re.sub(r"[^A-Za-z0-9]", "_", name))
         r = subprocess.run([sys.executable, os.path.join(HERE, "check.py"), "--unit", unit], capture_output=True, text=True, env=env)
         # labels already refuted on the unmodified tree (known findings) say nothing about this edit
-        labels = sorted(set(re.findall(r"REFUTED label=(\S+)", r.stdout)) - {"-"} - set(base_labels))
+        # (compared as (label, function) pairs: an edit refuted under the label of a known finding but in ANOTHER function is a detection)
+        pairs = set(re.findall(r"REFUTED label=(\S+) fn=(\S+)", r.stdout))
+        labels = sorted({l for (l, f) in pairs if l != "-" and (l, f) not in set(base_labels) and l not in set(base_labels)})
         if breaking:
             outcome = "detected" if labels else ("undecided (exit 2)" if r.returncode == 2 or "label=-" in r.stdout else "MISSED")
         else:
@@ -478,7 +480,7 @@ def check_property(prop, tier, seed, quiet=False):
                                        undecided=rr["undecided"][:3]))
                 if rr["undecided"]:
                     undecided.append(f"[{n}] seed {extra_seed}: " + rr["undecided"][0][:200])
-        selftest = mutation_selftest(prop, units, {r["unit"]: [x["label"] for x in r["refuted"] if x["label"]] for r in results})
+        selftest = mutation_selftest(prop, units, {r["unit"]: [(x["label"], x["fn"]) for x in r["refuted"] if x["label"]] for r in results})
         if selftest:
             sm = selftest["summary"]
             print(f"SELFTEST property={prop} breaking {sm['breaking_detected']}/{sm['breaking_total']} detected, harmless {sm['harmless_quiet']}/{sm['harmless_total']} quiet, "
